@@ -128,6 +128,10 @@ func genMisroute(g *Rng, tier string) *Plan {
 			v, l := variant(g, idpEntity, w(12, 2, 2, 1))
 			spec.Issuer = sp(v)
 			st.Labels["resp-issuer"] = l
+			if l != "correct" && g.Bool(0.4) {
+				// another party's name, dressed up: a non-entity Format with the configured IdP's entity ID as NameQualifier
+				spec.IssuerFormat, spec.IssuerNQ = Pick(g, "urn:oasis:names:tc:SAML:2.0:nameid-format:persistent", "urn:oasis:names:tc:SAML:1.1:nameid-format:unspecified"), idpEntity
+			}
 		}
 		// Destination
 		recvAt := misACS
@@ -166,10 +170,17 @@ func genMisroute(g *Rng, tier string) *Plan {
 		spec.Sign = layout != 1
 		a := AsrtSpec{ID: fmt.Sprintf("id-as-%d", i), NameID: marker("nid", i), NotBefore: i64(-1000), NotOnOrAfter: i64(600_000), Sign: layout != 0, SessionIndex: "si"}
 		a.Issuer, st.Labels["as-issuer"] = variant(g, idpEntity, w(14, 2, 2, 1))
+		if st.Labels["as-issuer"] != "correct" && g.Bool(0.4) {
+			a.IssuerFormat, a.IssuerNQ = Pick(g, "urn:oasis:names:tc:SAML:2.0:nameid-format:persistent", "urn:oasis:names:tc:SAML:1.1:nameid-format:unspecified"), idpEntity
+		}
 		nc := 1 + g.PickW(4, 1)
 		for q := 0; q < nc; q++ {
 			r, l := variant(g, misACS, w(14, 3, 2, 1))
-			a.Confs = append(a.Confs, ConfSpec{NotOnOrAfter: i64(600_000), Recipient: r, InResponseTo: "id-req",
+			noa := int64(600_000)
+			if l != "correct" && g.Bool(0.4) {
+				noa = -3_600_000 // a confirmation for somebody else that has moreover lapsed: still a confirmation of this assertion
+			}
+			a.Confs = append(a.Confs, ConfSpec{NotOnOrAfter: i64(noa), Recipient: r, InResponseTo: "id-req",
 				Method: Pick(g, "", "", "", "urn:oasis:names:tc:SAML:2.0:cm:holder-of-key", "urn:oasis:names:tc:SAML:2.0:cm:sender-vouches")})
 			st.Labels[fmt.Sprintf("recipient%d", q)] = l
 		}
